@@ -44,12 +44,19 @@ def main():
     ap.add_argument("--patch", action="append")
     ap.add_argument("--tier", default="quick")
     ap.add_argument("-v", action="store_true")
+    ap.add_argument("--baseline", action="store_true", help="also require the 37 stable tests to pass with the patch")
     a = ap.parse_args()
     if a.base:
         d = scratch_copy(a.base)
         try:
             for prop in a.props:
-                rc, out, dt = run_check(prop, d, a.tier)
+                if a.baseline:
+                b = subprocess.run([os.path.join(VERIF, "tools", "baseline.py")], env=dict(os.environ, VERIF_REPO=d, PYTHONPATH=os.path.join(d, "src")),
+                                   capture_output=True, text=True)
+                if b.returncode != 0:
+                    print("%-4s %-60s BREAKS-STABLE-TESTS (not a valid mutant) %s" % (prop, os.path.relpath(patch, VERIF), b.stdout.strip()[-150:]))
+                    continue
+            rc, out, dt = run_check(prop, d, a.tier)
                 print("%s @%s -> exit %d (%.0fs)" % (prop, a.base, rc, dt))
                 print("\n".join(l for l in out.splitlines() if l.startswith(("VIOLATION", "  violated", "KNOWN", "HARNESS")))[:3000])
         finally:
@@ -76,6 +83,12 @@ def main():
                 print("%-4s %-60s PATCH-DOES-NOT-APPLY %s" % (prop, os.path.relpath(patch, VERIF), r.stdout.strip()[:200]))
                 bad += 1
                 continue
+            if a.baseline:
+                b = subprocess.run([os.path.join(VERIF, "tools", "baseline.py")], env=dict(os.environ, VERIF_REPO=d, PYTHONPATH=os.path.join(d, "src")),
+                                   capture_output=True, text=True)
+                if b.returncode != 0:
+                    print("%-4s %-60s BREAKS-STABLE-TESTS (not a valid mutant) %s" % (prop, os.path.relpath(patch, VERIF), b.stdout.strip()[-150:]))
+                    continue
             rc, out, dt = run_check(prop, d, a.tier)
             verdict = {1: "caught", 0: "MISSED", 2: "HARNESS-ERROR"}.get(rc, "exit %d" % rc)
             if rc != 1:
